@@ -47,6 +47,16 @@ CHECKS = {
              "truth for discriminant values; TLC integers are 32-bit so wide reprs are modelled by small values.",
         technique="TLA+ spec (TryFromRepr) + TLC exhaustive enums, replay as real enums over full integer domains",
         design="4 (C12)"),
+    "C05": dict(
+        text="TLC model-checks FmtTransparent.tla (the property's iff - exactly one bare placeholder referring to its only "
+             "argument or to a field - vs the transcription of transparent_call) on derived trait x shape x literal "
+             "structure x argument form; every case is compiled with the real derive on an echo type that prints the "
+             "trait and every formatter flag reaching it, and compared over a grid of outer specs with the same spec "
+             "applied to the inner value (pass-through) or the flag-free text (inert); error cases must not compile.",
+        note="literal structures are rendered to one concrete literal each (parser generality is C03's); the echo type stands "
+             "for all field values; debug-hex flags are not observable on stable and are not compared.",
+        technique="TLA+ spec (FmtTransparent) + TLC exhaustive decision table, replay as real types over an outer-spec grid",
+        design="4 (C05)"),
 }
 
 NOT_YET = {}
